@@ -46,6 +46,10 @@ def args_probe(mode):
     exec("def fa(a:'ir'=1, b:'tr'=0, c=3, d:'ar'=0):\n    Out.kr(0, SinOsc.kr(c) * a)\n"
          "def fb(x=1, y=2, z=(3, 4), w=5):\n    Out.kr(0, SinOsc.kr(x) * y + w)\n", ns)
     problems = []
+    import hashlib
+    digests = []
+    vs = {'bright': {'c': 7}, 'dark': {'c': 1}, 'wide': {'d': 0.5}, 'x': {'a': 2}, 'long_name': {'c': 9, 'a': 3}}
+    digests.append(hashlib.sha1(bytes(SynthDef('pv', ns['fa'], None, None, vs).as_bytes())).hexdigest())
     for rates in ([0.5, 0.25, None, 0.125], [None, 'kr', 0.5, 0.25], [0.1, 0.1]):
         shared = copy.deepcopy(rates)
         variants = {'v': {'c': 7}}
@@ -63,7 +67,8 @@ def args_probe(mode):
         refirst = bytes(SynthDef('pa', ns['fa'], copy.deepcopy(rates), [], {'v': {'c': 7}}, {'note': [1, 2]}).as_bytes())
         if refirst != first:
             problems.append('rebuilding the first definition with equal arguments gives different bytes')
-    return problems
+        digests.append(hashlib.sha1(first + again).hexdigest())
+    return problems + ['DIGESTS ' + ' '.join(digests)]
 
 
 def run(payload):
@@ -151,6 +156,33 @@ def run(payload):
         for t in ts: t.start()
         for t in ts: t.join()
         stop.set(); rt.join()
+        # second concurrent phase, builders only, with rendez-vous points: whenever all builders have
+        # finished a build and none has started the next, nothing is being built, so the global
+        # current definition must be None and the lock free
+        samples = []
+
+        def sample():
+            from sc3.base import main as _libsc3
+            samples.append(_libsc3.main._current_synthdef is None)
+        bar = threading.Barrier(nthreads, action=sample)
+
+        def worker2(k):
+            try:
+                for rnd in range(12):
+                    # several builds per round, so that constructors start while other threads build
+                    for j in range(2 + (k + rnd) % 3):
+                        i = (k + (3 * rnd + j) * nthreads) % len(cases)
+                        # (no description read here: the reader itself clears the global and would mask a residue)
+                        c01.build_program(cases[i]['prog'], residue_check=False, desc=False)
+                    bar.wait(timeout=60)
+            except Exception as e:
+                errors.append(f'barrier phase: {type(e).__name__}: {e}')
+                try: bar.abort()
+                except Exception: pass
+        ts2 = [threading.Thread(target=worker2, args=(k,)) for k in range(nthreads)]
+        for t in ts2: t.start()
+        for t in ts2: t.join()
+        out[0]['barrier_current_none'] = samples
         sys.setswitchinterval(old_si)
         out[0]['desc_reads_during_builds'] = reads[0]
         for i, r in enumerate(out):
